@@ -17,6 +17,7 @@ driver's translation, which is trusted and described in notes/C05.md. The proper
 the theorem quantifies over all inputs of each *checked* program (programs are sampled) - partial by construction.
 -/
 import AsmjitVerif.Lemmas.C05Sim
+import AsmjitVerif.Gen.VexEvex
 
 namespace AsmjitVerif.RAIR
 
@@ -163,5 +164,14 @@ example : validate (fun _ => 8) Example.pre Example.postBad [100] [0] Example.ce
 example (I : Interp Nat) (x mem n : Nat) :
     ∃ m, exec I Example.post m (initState [0] [x] 0 mem) = exec I Example.pre n (initState [100] [x] 0 mem) :=
   validate_sound (vsz := fun _ => 8) (cert := Example.cert) (by decide) I [x] 0 mem n
+
+/-! ## the rewriter's VEX -> EVEX table (regenerated from x86rapass.cpp) only renames an instruction to an EVEX form of the SAME
+    operation (pairs regenerated from db/isa_x86.json: same operand encoding, prefix, opcode map, opcode, tail, operand kinds) -/
+
+theorem rewriter_rows_are_siblings :
+    AsmjitVerif.Gen.rewriterRows.all (fun r => AsmjitVerif.Gen.vexEvexPairs.contains r) = true := by decide
+
+/-- non-vacuity: the table is not empty and a wrong renaming is not a sibling -/
+example : AsmjitVerif.Gen.rewriterRows.length ≥ 8 ∧ AsmjitVerif.Gen.vexEvexPairs.contains ("vpandn", "vpandd") = false := by decide
 
 end AsmjitVerif.RAIR
